@@ -17,6 +17,7 @@ import (
 	"strconv"
 	"strings"
 	"sync"
+	"sync/atomic"
 	"time"
 
 	ouroboros "github.com/blinklabs-io/gouroboros"
@@ -90,8 +91,48 @@ type scenario struct {
 	// SM binds the scenario to the library's exported state map (used only by the
 	// self-check of the admitted / not-admitted labels); nil when the protocol
 	// does not export what is needed
-	SM    *smBinding
+	SM *smBinding
+	// Flood is a valid, fully decodable server message (a real block / header) used
+	// by the flood fault (protocols whose state maps declare a
+	// PendingMessageByteLimit; the limits are read from SM.Map)
+	Flood []floodMsg
 	sends []int // indices of send events
+}
+
+// floodMsg is a candidate message of the flood fault. IdleOnly candidates are well
+// formed as messages but carry an opaque payload: they are only used where no
+// handler will look at them (after the conversation, the client idle).
+type floodMsg struct {
+	wire
+	IdleOnly bool
+}
+
+// floodLimits reads the pending-byte limits from the exported state map: the
+// limit of the initial (idle, client agency) state and the largest limit of any state.
+func (s *scenario) floodLimits() (idle, busy int) {
+	if s.SM == nil {
+		return 0, 0
+	}
+	for st, e := range s.SM.Map {
+		if st.Name == s.SM.Initial {
+			idle = e.PendingMessageByteLimit
+		}
+		if e.PendingMessageByteLimit > busy {
+			busy = e.PendingMessageByteLimit
+		}
+	}
+	return
+}
+
+// callbackGate: while a flood case with a call pending runs, the user callbacks of
+// the chain-sync / block-fetch scenarios block on it (a slow consumer); the runner
+// releases it shortly after the connection ended. Cases run one at a time.
+var callbackGate atomic.Pointer[chan struct{}]
+
+func slowCallback() {
+	if g := callbackGate.Load(); g != nil {
+		<-*g
+	}
 }
 
 type smBinding struct {
@@ -139,12 +180,13 @@ const (
 	fGarbage                        // garbage bytes
 	fHsClose                        // close right after the handshake, before any request is read
 	fMidMsgClose                    // close in the middle of a message split over several segments
+	fFlood                          // valid messages whose total size exceeds the state's pending-byte limit, then the connection ends
 	nFaultKinds
 	fNone = nFaultKinds // no fault (self-test of the legitimate scripts)
 )
 
 var faultNames = [...]string{"other-admitted", "not-admitted", "surplus", "truncated-segment-close", "close",
-	"silence-close", "garbage", "handshake-close", "midmessage-close", "none"}
+	"silence-close", "garbage", "handshake-close", "midmessage-close", "flood-valid", "none"}
 
 func (f faultKind) String() string { return faultNames[f] }
 
@@ -368,6 +410,7 @@ type runner struct {
 	peerResp   bool // direction bit of the peer's segments
 	t0         time.Time
 	wireLog    []wireRec // messages in script order (self-check only)
+	gate       *chan struct{}
 }
 
 type wireRec struct {
@@ -550,6 +593,21 @@ func runCaseIgnoring(scn *scenario, cs caseSpec, bound time.Duration, ignore map
 		base[g.ID] = true
 	}
 
+	// flood with a call pending: the scenario's user callbacks are slow (they block
+	// until shortly after the connection ended)
+	var gate chan struct{}
+	releaseGate := func() {}
+	if fk == fFlood && pos.evIdx >= 0 {
+		gate = make(chan struct{})
+		var once sync.Once
+		releaseGate = func() { once.Do(func() { close(gate); r.logf("user callbacks released") }) }
+		r.gate = &gate // armed when the fault is injected
+		defer func() {
+			releaseGate()
+			callbackGate.Store(nil)
+		}()
+	}
+
 	r.ca, r.cb = rawpeer.Pipe(cs.PlanLib.plan(), cs.PlanPeer.plan())
 	r.peer = rawpeer.NewPeer(r.cb)
 	defer func() {
@@ -662,6 +720,12 @@ func runCaseIgnoring(scn *scenario, cs caseSpec, bound time.Duration, ignore map
 		r.peer.Close()
 		peerClosed = true
 		r.logf("peer closes")
+	}
+
+	if gate != nil {
+		// the slow consumer catches up only after the connection is gone
+		time.Sleep(20 * time.Millisecond)
+		releaseGate()
 	}
 
 	// ---- oracle: poll until everything has settled or the bound is over
@@ -1021,6 +1085,9 @@ func applicable(scn *scenario, fk faultKind, p int) bool {
 		return p >= 0 && (!end || len(scn.sends) > 0 || fk != fSurplus)
 	case fTruncSeg, fMidMsgClose:
 		return p >= 0 && !end && len(scn.Script[scn.sends[p]].Send.Data) >= 2
+	case fFlood:
+		idle, busy := scn.floodLimits()
+		return len(scn.Flood) > 0 && p >= 0 && idle > 0 && busy > 0
 	}
 	return false
 }
@@ -1109,6 +1176,59 @@ func (r *runner) script(pos position, out *outcome) (variant string, peerClosed 
 			r.peer.Close()
 			peerClosed = true
 			return true
+		case fFlood:
+			// the legitimate reply (if one is due), then valid messages whose total
+			// exceeds the pending-byte limit; each one alone fits the smallest limit
+			if r.gate != nil {
+				callbackGate.Store(r.gate) // from now on the user callbacks are slow
+			}
+			idle, busy := s.floodLimits()
+			limit := busy
+			if e.Send.Data == nil {
+				limit = idle // after the conversation: the client is idle
+			} else {
+				r.send(e.Send)
+			}
+			// the largest candidate of which at least two fit the limit (big messages get
+			// past the receive queue's message-count backpressure to the byte limit)
+			w := s.Flood[0].wire
+			for _, c := range s.Flood {
+				if c.IdleOnly && e.Send.Data != nil {
+					continue
+				}
+				if len(c.Data) <= limit/2 && len(c.Data) > len(w.Data) {
+					w = c.wire
+				}
+			}
+			n := limit/len(w.Data) + 2
+			r.logf("FAULT flood: %d x %s of %d bytes (limit %d)", n, w.Kind, len(w.Data), limit)
+			sent := make(chan struct{})
+			go func() {
+				defer close(sent)
+				for i := 0; i < n; i++ {
+					segs := rawpeer.SplitPayload(s.ProtoID, r.peerResp, w.Data, r.cs.SegMax*1000)
+					if r.peer.Send(segs...) != nil {
+						return
+					}
+				}
+			}()
+			select {
+			case <-sent:
+			case <-time.After(300 * time.Millisecond):
+				r.logf("flood: the pipe is full (backpressure), going on")
+			}
+			// let the library take what it is going to take off the wire
+			last, stable := -1, 0
+			for i := 0; i < 100 && stable < 4; i++ {
+				time.Sleep(10 * time.Millisecond)
+				if u := r.cb.Unread(); u == last {
+					stable++
+				} else {
+					last, stable = u, 0
+				}
+			}
+			r.logf("flood: %d bytes still unread in the pipe", last)
+			return true // nothing more is sent; the connection ends next (peer close or local Close)
 		case fClose:
 			r.logf("FAULT close")
 			r.peer.Close()
@@ -1170,7 +1290,7 @@ func (r *runner) script(pos position, out *outcome) (variant string, peerClosed 
 		}
 		if i == pos.evIdx {
 			if inject(e) {
-				return variant, true
+				return variant, peerClosed
 			}
 			continue // faults that keep the connection: the legitimate script goes on
 		}
@@ -1190,7 +1310,7 @@ func (r *runner) script(pos position, out *outcome) (variant string, peerClosed 
 		case <-time.After(reqWait):
 		}
 		if inject(ev{Recv: -1}) {
-			return variant, true
+			return variant, peerClosed
 		}
 	}
 	linger()
